@@ -748,3 +748,20 @@ func ParseCreateMpChecksumHeaders(ctx *fiber.Ctx, debug bool) (types.ChecksumAlg
 
 	return algo, chType, nil
 }
+
+// StripAwsChunked removes the aws-chunked transfer coding from a
+// Content-Encoding header value: it describes the upload stream, not
+// the stored object
+func StripAwsChunked(contentEncoding string) string {
+	if !strings.Contains(contentEncoding, "aws-chunked") {
+		return contentEncoding
+	}
+	var kept []string
+	for _, enc := range strings.Split(contentEncoding, ",") {
+		if strings.TrimSpace(enc) == "aws-chunked" {
+			continue
+		}
+		kept = append(kept, strings.TrimSpace(enc))
+	}
+	return strings.Join(kept, ",")
+}
